@@ -879,22 +879,54 @@ def validation_before_imports(index: RepoIndex, rep, rule: str) -> None:
     from ..guards import strip_iter, truth_under
 
     def is_unique_pred(n) -> bool:
-        if isinstance(n, ast.Lambda) and isinstance(n.body, ast.Compare) and \
-                len(n.body.ops) == 1 and isinstance(n.body.ops[0], ast.Eq):
-            t = {src(n.body.left).replace(' ', ''), src(n.body.comparators[0]).replace(' ', '')}
+        body = None
+        if isinstance(n, ast.Lambda):
+            body = n.body
+        elif isinstance(n, ast.FunctionDef):
+            st_ = [x for x in n.body if not (isinstance(x, ast.Expr)
+                                             and isinstance(x.value, ast.Constant))]
+            if len(st_) == 1 and isinstance(st_[0], ast.Return):
+                body = st_[0].value
+        if isinstance(body, ast.Compare) and len(body.ops) == 1 and \
+                isinstance(body.ops[0], ast.Eq):
+            t = {src(body.left).replace(' ', ''), src(body.comparators[0]).replace(' ', '')}
             a = n.args.args[0].arg if n.args.args else ''
-            return t == {f'len(set({a}))', f'len({a})'}
+            return t in ({f'len(set({a}))', f'len({a})'}, {f'len(frozenset({a}))', f'len({a})'})
         return False
+    # functions that *are* the predicate (referred to by name) and functions that build a
+    # schema around it (called)
+    pred_fns = {fn_.name for fn_ in mod.functions.values() if is_unique_pred(fn_.node)}
     uniq_fns = {fn_.name for fn_ in mod.functions.values()
-                if any(is_unique_pred(n) for n in ast.walk(fn_.node))}
+                if fn_.name not in pred_fns and any(
+                    is_unique_pred(n) or (isinstance(n, ast.Name) and n.id in pred_fns)
+                    for n in ast.walk(fn_.node))}
+
+    def other_spelling(e: ast.AST) -> bool:
+        """a predicate about repeated elements in a spelling the rule does not read (sets,
+        counts, sorting inside a lambda or a named predicate): never a refutation"""
+        for n in ast.walk(e):
+            bodies = []
+            if isinstance(n, ast.Lambda) and not is_unique_pred(n):
+                bodies.append(n)
+            if isinstance(n, ast.Name) and n.id in mod.functions and n.id not in pred_fns \
+                    and n.id not in uniq_fns:
+                bodies.append(mod.functions[n.id].node)
+            for b_ in bodies:
+                if any(isinstance(x, ast.Name) and x.id in ('set', 'frozenset', 'Counter',
+                                                           'sorted', 'groupby')
+                       or isinstance(x, ast.Attribute) and x.attr in ('count', 'unique')
+                       for x in ast.walk(b_)):
+                    return True
+        return False
 
     def reaches_unique(e: ast.AST, depth: int = 3):
         """True / False / None (undecided)"""
         for n in ast.walk(e):
             if is_unique_pred(n) or (isinstance(n, ast.Call) and isinstance(n.func, ast.Name)
-                                     and n.func.id in uniq_fns):
+                                     and n.func.id in uniq_fns) or \
+                    (isinstance(n, ast.Name) and n.id in pred_fns):
                 return True
-        verdict = False
+        verdict = None if other_spelling(e) else False
         for n in ast.walk(e):
             if isinstance(n, ast.Call) and isinstance(n.func, ast.Name) and \
                     n.func.id in mod.functions and n.func.id not in uniq_fns and depth > 0:
@@ -911,10 +943,14 @@ def validation_before_imports(index: RepoIndex, rep, rule: str) -> None:
                             isinstance(bound[a_.id], ast.Constant):
                         return bool(bound[a_.id].value)
                     return None
+                if other_spelling(h.node):
+                    verdict = None
                 for ev_ in hw.events:
                     if ev_.kind == 'call' and (
                             (isinstance(ev_.node.func, ast.Name) and ev_.node.func.id in uniq_fns)
-                            or any(is_unique_pred(x) for x in ast.walk(ev_.node))):
+                            or any(is_unique_pred(x) or (isinstance(x, ast.Name)
+                                                         and x.id in pred_fns)
+                                   for x in ast.walk(ev_.node))):
                         t_ = truth_under(strip_iter(ev_.guard), at)
                         if t_ is True:
                             return True
